@@ -216,7 +216,8 @@ def theorems_in(mod):
 def axioms_audit(mods, theorems):
     """Compile a throw-away file printing the axioms and the statement of each theorem
     -> ({thm: [axioms]}, raw text); statements are kept in axioms_audit.statements {thm: normalised type string}."""
-    body = ''.join('import %s\n' % m for m in mods) + ''.join('#print axioms %s\n#check @%s\n' % (t, t) for t in theorems)
+    body = 'import Lean\n' + ''.join('import %s\n' % m for m in mods) + ''.join('#print axioms %s\n#check @%s\n' % (t, t) for t in theorems)
+    body += DEFHASH_META % ', '.join('`' + t for t in theorems)
     d = os.path.join(LEAN, '.lake', 'audit'); os.makedirs(d, exist_ok=True)
     tag = getattr(axioms_audit, 'tag', None) or ('pid%d' % os.getpid())
     f = os.path.join(d, 'Audit_%s.lean' % tag)          # kept on disk: the evidence names it as the checker input
@@ -241,10 +242,53 @@ def axioms_audit(mods, theorems):
         else:
             cur = None
     axioms_audit.statements = {k: re.sub(r'\s+', ' ', v).strip() for k, v in st.items()}
+    axioms_audit.defhashes = {m.group(1): m.group(2) for m in re.finditer(r'^DEFHASH (\S+) (\d+)$', out, flags=re.M)}
     return res, txt
 
 
+# Meaning of the pinned statements: every project constant (definition, structure, inductive, auxiliary matcher ...) that a
+# property theorem's statement mentions, transitively through definition bodies, with a structural hash of its type and
+# value.  Runs in the throw-away audit file only (the project itself may not use metaprogramming, see FORBIDDEN).
+DEFHASH_META = '''
+open Lean Elab Command in
+#eval show CommandElabM Unit from do
+  let env ← getEnv
+  let roots : Array Name := #[%s]
+  let isProj (c : Name) : Bool :=
+    match env.getModuleIdxFor? c with
+    | some i => (env.header.moduleNames[i.toNat]!).getRoot == `BctVerif
+    | none => false
+  let mut seen : NameSet := {}
+  let mut todo : Array Name := #[]
+  let mut out : Array (Name × UInt64) := #[]
+  for r in roots do
+    match env.find? r with
+    | some ci => for c in ci.type.getUsedConstants do
+        if isProj c && !seen.contains c then seen := seen.insert c; todo := todo.push c
+    | none => pure ()
+  while !todo.isEmpty do
+    let c := todo.back!
+    todo := todo.pop
+    match env.find? c with
+    | none => pure ()
+    | some ci =>
+      let mut h : UInt64 := ci.type.hash
+      let mut deps : Array Name := ci.type.getUsedConstants
+      match ci with
+      | .defnInfo v => h := mixHash h v.value.hash; deps := deps ++ v.value.getUsedConstants
+      | .opaqueInfo v => h := mixHash h v.value.hash; deps := deps ++ v.value.getUsedConstants
+      | .inductInfo v => deps := deps ++ v.ctors.toArray
+      | _ => pure ()
+      out := out.push (c, h)
+      for d in deps do
+        if isProj d && !seen.contains d then seen := seen.insert d; todo := todo.push d
+  for (c, h) in out.qsort (fun a b => a.1.toString < b.1.toString) do
+    IO.println s!"DEFHASH {c} {h}"
+'''
+
+
 axioms_audit.statements = {}
+axioms_audit.defhashes = {}
 
 
 def pins_file(pid):
@@ -494,6 +538,16 @@ class Check:
         if prop_modules and os.path.exists(pins_file(self.pid)):
             pins = json.load(open(pins_file(self.pid)))
             got = axioms_audit.statements
+            defpins = pins.pop('__defs__', None)
+            if defpins is not None:
+                # the definitions the pinned statements are about (transitively): a changed or vanished body is a break too
+                now = axioms_audit.defhashes
+                for d, h in sorted(defpins.items()):
+                    if now.get(d) != h:
+                        ok = False
+                        self.breaks.append({'kind': 'definition-changed', 'theorem': d, 'now': now.get(d, 'missing'),
+                                            'note': 'a definition used by pinned statements differs from lean/pins/%s.json' % self.pid})
+                self.dist['pinned_definitions'] = len(defpins)
             for t, h in sorted(pins.items()):
                 if t not in thms:
                     continue        # reported below if its namespace is being audited
